@@ -88,7 +88,8 @@ Fixpoint str_under_any (t : ty) (v : val) {struct t} : bool :=
    1 finding none-unchecked      : None where the type does not admit it (lenient_check returns it unchecked)
    2 finding clash-key-unadapted : a key component is a Namespace clash name (and the setting is otherwise inside the guard)
    3 finding literal-eq-channels : the text and the value part ways only because Literal compares with ==
-   4 finding jsonnet-numbers     : a jsonnet-mode parser and a number jsonnet re-renders differently
+   4 finding jsonnet-numbers     : a jsonnet-mode parser and a number jsonnet re-renders differently (setting otherwise
+                                   inside the guard)
    5 outside the property's quantifier (nothing is demanded): a string below an Any position, or the text is not
      read as the value and a string / a str or Any position is involved — the textual form is ambiguous
    6 outside the guard for any other reason (nothing listed: a spec failure here is a violation) *)
@@ -99,8 +100,7 @@ Definition class_of (c : case) : N :=
   else if str_under_any t v then 5
   else if negb (g_reads C t s v) && guard (chk_lit pinned (yl c)) t s v then 3
   else if negb (g_reads C t s v) && (has_string v || ty_has_str_any t) then 5
-  else if c_jsonnet c && jsonnet_lossy v then 4
-  else if guard C t s v then (if c_clash c then 2 else 0)
+  else if guard C t s v then (if c_clash c then 2 else if c_jsonnet c && jsonnet_lossy v then 4 else 0)
   else 6.
 
 Definition spec_ok (c : case) : bool :=
@@ -131,10 +131,18 @@ Definition judge1h (h : hcase) : verdict :=
      v_class := 0;
      v_spec := c05_spec (map h_clean (h_obs h) ++ map h_after (h_obs h)) |}.
 
-Inductive ccase := Setting (c : case) | History (h : hcase).
+(* Group: the leaf keys of ONE parse of a parser with sub-commands (a top-level key and the keys of the chosen
+   sub-command), each judged as an ordinary setting: a key of a sub-command goes through the same per-key pipeline
+   (for the environment: the sub-parser's parse_env on the SAME mapping, _core.py:538-546) *)
+Inductive ccase := Setting (c : case) | History (h : hcase) | Group (cs : list case).
+
+Definition group_verdict (j : case -> verdict) (cs : list case) : verdict :=
+  {| v_model := forallb (fun c => v_model (j c)) cs;
+     v_class := fold_right (fun c k => if N.eqb (v_class (j c)) 0 then k else v_class (j c)) 0%N cs;
+     v_spec := forallb (fun c => v_spec (j c)) cs |}.
 
 Definition judge (cs : list ccase) :=
-  judge_all (fun x => match x with Setting c => judge1 c | History h => judge1h h end) cs.
+  judge_all (fun x => match x with Setting c => judge1 c | History h => judge1h h | Group g => group_verdict judge1 g end) cs.
 
 
 (* ---- after fixes/C05-clash-key-unadapted.patch has been applied -------------------------------------------
@@ -148,4 +156,4 @@ Definition unclash (c : case) : case :=
 Definition judge1_fixed (c : case) : verdict := judge1 (unclash c).
 
 Definition judge_fixed (cs : list ccase) :=
-  judge_all (fun x => match x with Setting c => judge1_fixed c | History h => judge1h h end) cs.
+  judge_all (fun x => match x with Setting c => judge1_fixed c | History h => judge1h h | Group g => group_verdict judge1_fixed g end) cs.
